@@ -145,14 +145,14 @@ pub fn c13() -> PropDef {
                 TermClass::ShortCircuit,
             ];
         }),
-        quick: (4000, 500),
-        thorough: (50000, 6000),
+        quick: (10000, 1500),
+        thorough: (70000, 9000),
         dense: dense_c13,
         check: check_c13,
         adjust: no_adjust,
         assumptions: COMMON_ASSUMPTIONS,
         tiny: no_tiny,
-        long: Some(({ let mut c = GenCfg::long_sched(); c.terms = vec![TermClass::Collect, TermClass::CollectIntoPrefixed, TermClass::CollectX, TermClass::ShortCircuit]; c }, 100, 1000)),
+        long: Some(({ let mut c = GenCfg::long_sched(); c.terms = vec![TermClass::Collect, TermClass::CollectIntoPrefixed, TermClass::CollectX, TermClass::ShortCircuit]; c }, 300, 2000)),
     }
 }
 
@@ -313,8 +313,8 @@ pub fn c14() -> PropDef {
                 TermClass::ShortCircuit,
             ];
         }),
-        quick: (3000, 800),
-        thorough: (40000, 8000),
+        quick: (9000, 2400),
+        thorough: (60000, 12000),
         dense: dense_c14,
         check: check_c14,
         adjust: no_adjust,
